@@ -179,6 +179,12 @@ func (h *Hist) submit(ctx sdk.Context, kind string, msg sdk.Msg, expedited bool)
 
 func (h *Hist) genProposal(ctx sdk.Context) {
 	a := h.ref.App
+	// a switched-off erc20 module (or hook) does not stay off for most of a history
+	if p := a.Erc20Keeper.GetParams(ctx); (!p.EnableErc20 || !p.EnableEVMHook) && h.r.Chance(1, 3) {
+		p.EnableErc20, p.EnableEVMHook = true, true
+		h.submit(ctx, "params-erc20", &erc20types.MsgUpdateParams{Authority: h.govAddr, Params: p}, false)
+		return
+	}
 	switch h.r.Intn(13) {
 	case 0, 1: // RegisterCoin
 		cands := append(append([]string{}, extraDenoms...), "ausdc", "aeth")
@@ -524,7 +530,15 @@ func (h *Hist) genUserTx(ctx sdk.Context) {
 				to = erc20types.ModuleAddress
 			}
 			data, _ := contracts.ERC20MinterBurnerDecimalsContract.ABI.Pack("transfer", to, big.NewInt(int64(1+r.Intn(500))))
-			h.ethTx(ctx, "eth-erc20-transfer", h.user(), &c, nil, 500_000, data, nil)
+			// mostly a holder of the token (the balance is read through the keeper's own read-only EVM call)
+			i := h.user()
+			for x := 0; x < len(h.cfg.Addrs) && !r.Chance(1, 8); x++ {
+				if b := a.Erc20Keeper.BalanceOf(ctx, contracts.ERC20MinterBurnerDecimalsContract.ABI, c, h.ethAddr(i)); b != nil && b.Cmp(big.NewInt(500)) > 0 {
+					break
+				}
+				i = (i + 1) % len(h.cfg.Addrs)
+			}
+			h.ethTx(ctx, "eth-erc20-transfer", i, &c, nil, 500_000, data, nil)
 		}
 	}
 }
